@@ -7,7 +7,9 @@ interpreter (a {-1,0,+1}-combination of integer cells found automatically) toget
                 iteration bound (e.g. name_len - refs_allowed in [-16, 255] => <= 272 iterations per walk)
   C18.drivers   the section loops of parse and the option loop of parse_opt advance a cursor bounded by the buffer length by a
                 positive minimum step per iteration (>= 11 bytes per record, >= 4 per option), or have a constant bound
-  C18.calls     the number of walker invocations per record is a constant (no loop in parse_rr / parse_question; call sites counted)
+  C18.calls     the number of walker invocations per record is a constant (no loop in parse_rr / parse_question; call sites counted);
+                every external callee reachable from the per-record functions (walkers excluded) is listed as constant-time in
+                tables/extern_cost.json; the validator keeps no growable collection besides the packet
 
 Both arithmetic configurations (overflow checks on / off) are ranked on every run, and a bound that is nothing but the range of the
 counter's integer type is not accepted as a loop bound.
@@ -74,6 +76,32 @@ def run(ctx):
             ctx.instance('C18.calls', '%s: loop-free, %d name-walk call site(s)' % (key.split('::')[-1], n), ok=not has_loop, site=f['at'])
             if has_loop:
                 ctx.violation('C18.calls', key, 'loop', '%s contains a loop: the number of name walks per record is no longer a constant' % key, site=f['at'], config=cfg)
+        # nothing in the per-record work can cost more than a constant: every external callee reachable from the per-record functions
+        # (walkers excluded) is in the table of constant-time operations
+        import json as _json
+        import os as _os
+        with open(_os.path.join(F.VERIF, 'tables', 'extern_cost.json')) as fh:
+            ctab = _json.load(fh)
+        walkers_ = ('compress::Compress::check_compressed_name', DS + '::check_uncompressed_name')
+        seen_, ext_, ind_, par_ = facts.reach([k for k in per_record if facts.fn(k) is not None], avoid=walkers_)
+        for p_ in sorted(ext_):
+            okc = p_ in ctab['constant']
+            ctx.instance('C18.calls', 'per-record work calls %s: %s' % (p_, ctab['constant'].get(p_, 'not in tables/extern_cost.json')), ok=okc)
+            if not okc:
+                grow = any(p_.endswith(sfx) or (sfx + '::') in p_ for sfx in ctab['linear_or_growing_suffix'])
+                who = sorted(ext_[p_])[0]
+                ctx.violation('C18.calls', who, 'extern-cost:' + p_.split('::')[-1], 'the per-record part of the validator (%s) calls %s, %s: the cost of handling one record is no longer a constant'
+                              % (who.split('::')[-1], p_, 'an operation whose cost or state grows with what was processed before' if grow else 'whose cost is not classified in tables/extern_cost.json'),
+                              kind='rule-violated' if grow else 'undecided', site=facts.fns[who]['at'], config=cfg)
+        for k_, s_ in ind_[:3]:
+            ctx.violation('C18.calls', k_, 'indirect-call', 'indirect call in the per-record part of the validator at %s' % s_, kind='undecided', site=s_, config=cfg)
+        # fields of the validator that per-record code can grow (a collection kept across records is a hidden re-scan in waiting)
+        adt_ = facts.adts.get(DS, {})
+        for fd in (adt_.get('variants') or [{}])[0].get('fields', []):
+            tname = fd['ty'].get('adt', '')
+            if tname.startswith(('std::vec::Vec', 'std::collections::')) and fd['name'] != 'packet':
+                ctx.violation('C18.calls', DS, 'growing-field:' + fd['name'], 'DNSSector.%s is a %s kept across records: work that consults it depends on how many records came before' % (fd['name'], fd['ty'].get('s')),
+                              site=adt_.get('at'), config=cfg)
         # the derived bound
         wc = max([i['iters'] for _, _, i in walkers if i and i['kind'] == 'const'] or [0])
         steps = [i['step'] for k, _, i in drivers if i and i['kind'] == 'len']
